@@ -20,11 +20,11 @@ theorem kw_connInput {Q : Unit → Conn → Prop} (i : ConnectionInputs) (c : Co
   unfold wp connInput
   obtain ⟨hwf, hfb⟩ := h
   cases hct : connTable c.cstate i with
-  | none => exact he _ _ ⟨⟨⟨hwf.1.ls, hwf.1.rs, hwf.1.mof, hwf.1.dec⟩, fun hc => absurd rfl hc⟩, hfb⟩
+  | none => exact he _ _ ⟨⟨⟨hwf.1.ls, hwf.1.rs, hwf.1.mof, hwf.1.dec, hwf.1.ls32⟩, fun hc => absurd rfl hc⟩, hfb⟩
   | some t =>
     simp only
     apply hq
-    refine ⟨⟨⟨hwf.1.ls, hwf.1.rs, hwf.1.mof, hwf.1.dec⟩, ?_⟩, hfb⟩
+    refine ⟨⟨⟨hwf.1.ls, hwf.1.rs, hwf.1.mof, hwf.1.dec, hwf.1.ls32⟩, ?_⟩, hfb⟩
     intro ht
     by_cases hc : c.cstate = .CLOSED
     · rw [hc] at hct; exact absurd (conn_closed_absorbing _ _ hct) ht
@@ -64,7 +64,7 @@ theorem kw_onConnWM {Q : Option Int → Conn → Prop} (f : WindowManager → WR
     (hq : ∀ a c', KW fb0 c' → Q a c') (he : ∀ e c', KW fb0 c' → E e c') : wp (onConnWM f) Q E c := by
   rw [wp_onConnWM]
   obtain ⟨hwf, hfb⟩ := h
-  have k : ∀ w, KW fb0 { c with inWM := w } := fun w => ⟨⟨⟨hwf.1.ls, hwf.1.rs, hwf.1.mof, hwf.1.dec⟩, hwf.2⟩, hfb⟩
+  have k : ∀ w, KW fb0 { c with inWM := w } := fun w => ⟨⟨⟨hwf.1.ls, hwf.1.rs, hwf.1.mof, hwf.1.dec, hwf.1.ls32⟩, hwf.2⟩, hfb⟩
   cases f c.inWM with
   | mk r w => cases r <;> first | exact hq _ _ (k w) | exact he _ _ (k w)
 
@@ -73,7 +73,7 @@ theorem kw_openStreams {Q : Int → Conn → Prop} (r : Int) (c : Conn) (fb0) (h
   simp only [wp, openStreams]
   apply hq
   obtain ⟨hwf, hfb⟩ := h
-  refine ⟨⟨⟨hwf.1.ls, hwf.1.rs, hwf.1.mof, hwf.1.dec⟩, ?_⟩, hfb⟩
+  refine ⟨⟨⟨hwf.1.ls, hwf.1.rs, hwf.1.mof, hwf.1.dec, hwf.1.ls32⟩, ?_⟩, hfb⟩
   intro hc e he
   exact hwf.2 hc e (List.mem_filter.mp he).1
 
@@ -81,7 +81,7 @@ theorem kw_prepare {Q : Unit → Conn → Prop} (fs : List Frame) (c : Conn) (fb
     (hq : ∀ c', KW fb0 c' → Q () c') (he : ∀ e c', KW fb0 c' → E e c') : wp (prepareForSending fs) Q E c := by
   obtain ⟨hwf, hfb⟩ := h
   have k : ∀ o s, KW fb0 { c with out := o, sent := s } :=
-    fun o s => ⟨⟨⟨hwf.1.ls, hwf.1.rs, hwf.1.mof, hwf.1.dec⟩, hwf.2⟩, hfb⟩
+    fun o s => ⟨⟨⟨hwf.1.ls, hwf.1.rs, hwf.1.mof, hwf.1.dec, hwf.1.ls32⟩, hwf.2⟩, hfb⟩
   unfold prepareForSending
   wps
   split
@@ -306,7 +306,7 @@ theorem keeps_apiSendData (sid : Int) (d : Bytes) (es : Bool) (pad : Option Int)
             · intro c4 h4
               wps
               have h5 : KW fb0 { c4 with outWin := c4.outWin - fs } :=
-                ⟨⟨⟨h4.1.1.ls, h4.1.1.rs, h4.1.1.mof, h4.1.1.dec⟩, h4.1.2⟩, h4.2⟩
+                ⟨⟨⟨h4.1.1.ls, h4.1.1.rs, h4.1.1.mof, h4.1.1.dec, h4.1.1.ls32⟩, h4.1.2⟩, h4.2⟩
               with_reducible apply ite_intro
               · intro _; exact h5
               · intro _; exact h5
@@ -406,7 +406,7 @@ theorem keeps_apiUpdateSettings (items : List (Int × Int)) (c : Conn) : ApiKeep
   intro fb0 h
   unfold updateSettings
   wps
-  cases validateSettingsList items with
+  cases hvl : validateSettingsList items with
   | error e => exact h
   | ok u =>
     simp only
@@ -418,8 +418,10 @@ theorem keeps_apiUpdateSettings (items : List (Int × Int)) (c : Conn) : ApiKeep
     · intro c1 h1
       wps
       have hu := update_spec c1.localSettings items h1.1.1.ls
+      have hu32 := ls32_update c1.localSettings items h1.1.1.ls32
+        (fun kv hkv => by have := validateSettingsList_ok items hvl kv hkv; omega)
       have k : KW fb0 { c1 with localSettings := (Settings.update c1.localSettings items).2 } :=
-        ⟨⟨⟨hu.1, h1.1.1.rs, h1.1.1.mof, h1.1.1.dec⟩, h1.1.2⟩, h1.2⟩
+        ⟨⟨⟨hu.1, h1.1.1.rs, h1.1.1.mof, h1.1.1.dec, hu32⟩, h1.1.2⟩, h1.2⟩
       cases hU : Settings.update c1.localSettings items with
       | mk r s' =>
         rw [hU] at k
@@ -435,7 +437,7 @@ theorem keeps_apiUpdateSettings (items : List (Int × Int)) (c : Conn) : ApiKeep
 
 theorem keeps_apiDataToSend (n : Option Int) (c : Conn) : ApiKeeps (dataToSend n) c := by
   intro fb0 h
-  have k : ∀ o, KW fb0 { c with out := o } := fun o => ⟨⟨⟨h.1.1.ls, h.1.1.rs, h.1.1.mof, h.1.1.dec⟩, h.1.2⟩, h.2⟩
+  have k : ∀ o, KW fb0 { c with out := o } := fun o => ⟨⟨⟨h.1.1.ls, h.1.1.rs, h.1.1.mof, h.1.1.dec, h.1.1.ls32⟩, h.1.2⟩, h.2⟩
   unfold dataToSend
   wps
   cases n <;> (wps; exact k _)
@@ -444,7 +446,7 @@ theorem keeps_apiClearOut (c : Conn) : ApiKeeps clearOutboundDataBuffer c := by
   intro fb0 h
   unfold clearOutboundDataBuffer
   wps
-  exact ⟨⟨⟨h.1.1.ls, h.1.1.rs, h.1.1.mof, h.1.1.dec⟩, h.1.2⟩, h.2⟩
+  exact ⟨⟨⟨h.1.1.ls, h.1.1.rs, h.1.1.mof, h.1.1.dec, h.1.1.ls32⟩, h.1.2⟩, h.2⟩
 
 theorem keeps_apiLocalWindow (sid : Int) (c : Conn) : ApiKeeps (localFlowControlWindow sid) c := by
   intro fb0 h
